@@ -24,6 +24,10 @@ class PathAbort(Exception):
     """Path ended deliberately (cut point)."""
 
 
+_SEQFREE = {}       # AST id -> "has no sequence-sorted sub-term" (process-wide memo of PathCtx.seq_free)
+_SEQFREE_KEEP = []  # references to the memoised ASTs (z3 may recycle the id of a freed AST)
+
+
 class Config:
     def __init__(self, **kw):
         self.branch_timeout_ms = kw.get("branch_timeout_ms", 4000)
@@ -67,7 +71,7 @@ class PathCtx:
         self.solver.set("timeout", cfg.branch_timeout_ms)
         self.lia = z3.Solver()  # abstraction: only the assertions free of sequence terms
         self.lia.set("timeout", 2000)
-        self._seqfree = {}
+        self._seqfree = _SEQFREE  # shared by all paths; the classified terms are kept alive so that AST ids stay valid
         self.pc = []
         self.counter = 0
         self.inputs = []  # (name, kind, payload)
@@ -118,16 +122,22 @@ class PathCtx:
     def seq_free(self, t):
         """True if no sub-term of t has a sequence sort (such assertions form the LIA abstraction)."""
         cache = self._seqfree
+        if t.get_id() in cache:
+            return cache[t.get_id()]
         stack = [t]
         order = []
+        seen = set()  # shared sub-terms are visited once (terms are DAGs)
         while stack:
             e = stack.pop()
             i = e.get_id()
-            if i in cache:
+            if i in cache or i in seen:
                 continue
+            seen.add(i)
             order.append(e)
+            _SEQFREE_KEEP.append(e)
             for c in e.children():
-                if c.get_id() not in cache:
+                ci = c.get_id()
+                if ci not in cache and ci not in seen:
                     stack.append(c)
         for e in reversed(order):
             i = e.get_id()
